@@ -455,6 +455,13 @@ def exportTxt {V F T : Type} (enc : F → V → T) (cols : List (TxtCol V F)) : 
            rowsOf c0.arr.length (cols.map (fun c => c.arr.map (enc c.fmt)))⟩
     else .error .value
 
+/-- the columns of a decoded table with `nNames` header names: `np.loadtxt(..., ndmin=2).T`, and
+    `nNames` empty columns when the file has no data row -/
+def columnsOf {V : Type} (nNames : Nat) (rows : List (List V)) : List (List V) :=
+  match rows with
+  | [] => List.replicate nNames []
+  | r :: _ => transposeRows r.length rows
+
 /-- `read_data_from_txt` as the property needs it (every column comes back as an array, whatever
     the number of rows and columns): the list of (name, column) pairs the dictionary is built from -/
 def readTxt {V T : Type} (dec : T → Option V) (f : TxtFile T) : Except Err (List (Name × List V)) :=
@@ -462,10 +469,21 @@ def readTxt {V T : Type} (dec : T → Option V) (f : TxtFile T) : Except Err (Li
   | .error e => .error e
   | .ok rows =>
     if !(sameLen rows) then .error .value
-    else
-      .ok ((readNames f.header).zip
-        (match rows with
-         | [] => (readNames f.header).map (fun _ => [])
-         | r :: _ => transposeRows r.length rows))
+    else .ok ((readNames f.header).zip (columnsOf (readNames f.header).length rows))
+
+/-! ### specification-level definitions used in the statements of the theorems -/
+
+/-- specification of the written rows: fracture k contributes `[k, a.x, a.y, b.x, b.y]` -/
+def rowsSpec {V T : Type} (c : Codec V T) : Nat → List (Frac2 V) → List (Line T)
+  | _, [] => []
+  | k, f :: fs => .data [c.encIdx k, c.enc f.a.1, c.enc f.a.2, c.enc f.b.1, c.enc f.b.2] :: rowsSpec c (k + 1) fs
+
+/-- a fracture as the reader without tag columns returns it -/
+def strip {V : Type} (f : Frac2 V) : Frac2 V := ⟨f.a, f.b, []⟩
+
+/-- two lists related element by element -/
+inductive Pointwise {α β : Type} (R : α → β → Prop) : List α → List β → Prop
+  | nil : Pointwise R [] []
+  | cons {a b l m} : R a b → Pointwise R l m → Pointwise R (a :: l) (b :: m)
 
 end PorepyVerif.C47
